@@ -502,13 +502,15 @@ class History(object):
         self.slot_shares[si].add(sh)
 
     def setup(self):
-        self.legit_allocate()
-        self.legit_write()
-        self.legit_allocate()
-        self.legit_write(finish=True)
-        self.legit_mutable(new=True)
+        steps = [self.legit_allocate, self.legit_write, self.legit_allocate, lambda: self.legit_write(finish=True),
+                 lambda: self.legit_mutable(new=True)]
         if self.r.random() < 0.5:
-            self.legit_allocate()
+            steps.append(self.legit_allocate)
+        for f in steps:
+            try:
+                f()
+            except Exception as e:      # noqa  (the other client's own request failed: not an authorisation matter)
+                self.ctx.count("legit-op-failed:" + type(e).__name__)
 
     def legit_step(self):
         try:
